@@ -76,6 +76,16 @@ CHECKS = {
             "field-width facts (two digits for values < 100, k digits for values < 10^k) are finite sweeps closed by vm_compute; "
             "formatDurationSTL's float64 Hours()/Minutes()/Seconds() floors are modelled by integer division (justified by the "
             "correspondence and the implementation sweep, not by a Flocq proof)."),
+    "C15": (True,
+            "Theorems (Flocq, binary64 with round-to-nearest-even): for all reference points and boundaries in [0,24h] with exact slope "
+            "in [1/2,2] (either orientation), the value computed in the code's evaluation order is within 3 ns of the exact affine map "
+            "d1+(t-a1)(d2-d1)/(a2-a1) (hence a1->d1, a2->d2 within 3 ns), is monotone in t, and text/style/identity/order are untouched. "
+            "The executable Flocq model is compared bit for bit with ApplyLinearCorrection on random quadruples (NTSC/PAL ratios, slopes "
+            "0.5..2, swapped references) x cue lists; oracle: big.Rat evaluation with the property's 1 us tolerance.",
+            "Rocq/Flocq proof over a binary64 model + extracted-model bit-exact correspondence",
+            "Axioms: the standard library's real-number axioms (ClassicalDedekindReals.sig_not_dec, sig_forall_dec, "
+            "functional_extensionality_dep, Classical_Prop.classic) as printed by Print Assumptions; Go on amd64 does not fuse "
+            "float operations (assumption, exercised by the bit-exact comparison); int64 conversion of in-range values truncates."),
 }
 
 PENDING = "check not built yet in this session (work in progress; see DESIGN.md section 7 for the plan)"
